@@ -86,6 +86,23 @@ def _close_discipline(p, mod, fd, c):
         if not closers:
             return False, 'the handle stored in {} is never closed by any method of {}'.format(attr, cls.name)
         closer = closers[0]
+        # the guard of the close must test the handle itself, or something that is certainly set whenever the handle is
+        for x in ast.walk(closer):
+            if isinstance(x, ast.Call) and dotted(x.func) == attr + '.close':
+                g = x
+                while g is not None and not isinstance(g, ast.If):
+                    g = getattr(g, 'parent', None)
+                    if g is closer:
+                        g = None
+                        break
+                if g is not None:
+                    tested = {dotted(y) for y in ast.walk(g.test) if isinstance(y, ast.Attribute)}
+                    if attr not in tested:
+                        other = sorted(t for t in tested if t and t.startswith('self.'))
+                        # is the other attribute assigned before the open in the opener?
+                        later = [o for o in other if any(isinstance(z, ast.Assign) and dotted(z.targets[0]) == o and z.lineno > st.lineno for z in walk_no_nested(fd))]
+                        if later:
+                            return False, '{}.{}() closes {} only when `{}` holds, but {} is assigned after the file is opened: if creating it fails (e.g. the first record cannot be decoded) the descriptor stays open'.format(cls.name, closer.name, attr, node_text(g.test, 60), later[0])
         # guard: if self.x is not None: close
         # the creator of the registry object calls closer in a finally
         users = []
@@ -400,3 +417,27 @@ def rule_fl_fields(cx, rep, port):
         rep.decide(ok, '{}.{} order'.format(mod, fn), sorts[0] if sorts else fd, 'entries ordered by record number ascending', 'the field-count entries are not ordered by ascending record number before the first two are cited')
         picks = [n for n in walk_no_nested(fd) if isinstance(n, ast.Assign) and isinstance(n.value, ast.Subscript) and isinstance(n.value.slice, ast.Constant) and n.value.slice.value in (0, 1)]
         rep.decide(sorted(pk.value.slice.value for pk in picks) == [0, 1], '{}.{} picks'.format(mod, fn), fd, 'cites entries 0 and 1', 'the warning does not cite the first two entries')
+
+
+def rule_fl_none_complete(cx, rep, port):
+    """every place where the CSV writer replaces a None/null by an empty string sets the lossy-output flag"""
+    p = cx.port(port)
+    cls = p.cls('rbql_csv', 'CSVWriter')
+    flag = 'none_in_output' if port == 'py' else 'null_in_output'
+    n = 0
+    for m in [x for x in cls.body if isinstance(x, ast.FunctionDef)]:
+        for iff in walk_no_nested(m):
+            if not isinstance(iff, ast.If):
+                continue
+            t = iff.test
+            if not (isinstance(t, ast.Compare) and len(t.ops) == 1 and is_none(t.comparators[0]) and isinstance(t.ops[0], (ast.Is, ast.Eq))):
+                continue
+            arm = iff.body
+            empties = [x for s_ in arm for x in ast.walk(s_) if isinstance(x, ast.Constant) and x.value == '']
+            if not empties:
+                continue
+            n += 1
+            sets = [x for s_ in arm for x in ast.walk(s_) if isinstance(x, ast.Assign) and dotted(x.targets[0]) == 'self.' + flag and is_true(x.value)]
+            key = '{}: `{}`'.format(m.name, node_text(t, 60))
+            rep.decide(bool(sets), key, iff, 'the None -> empty string replacement sets ' + flag, 'a None value is replaced by an empty string in {} without setting {}: the output silently loses the distinction (no "None values in output" warning)'.format(m.name, flag))
+    rep.require_count('None replacement sites', n, 1, cls)
